@@ -96,6 +96,7 @@ type FuncVC struct {
 	lastSpecResults []Val
 	storeLog []storeRec
 	softNotes []string
+	pureMode int
 	freshRefs map[string]bool
 }
 
@@ -111,21 +112,21 @@ func (fv *FuncVC) note(format string, a ...interface{}) {
 }
 
 func (fv *FuncVC) addFact(st *State, f string) {
-	if f == "true" || f == "" {
+	if f == "true" || f == "" || fv.pureMode > 0 {
 		return
 	}
 	fv.facts = append(fv.facts, mkImp(st.guard, f))
 }
 
 func (fv *FuncVC) addFactRaw(f string) {
-	if f == "true" || f == "" {
+	if f == "true" || f == "" || fv.pureMode > 0 {
 		return
 	}
 	fv.facts = append(fv.facts, f)
 }
 
 func (fv *FuncVC) oblig(st *State, kind, name, text, goal string) *Obligation {
-	if st.dead() {
+	if st.dead() || fv.pureMode > 0 {
 		return nil
 	}
 	if goal == "true" {
@@ -213,7 +214,7 @@ func (fv *FuncVC) setHeap(st *State, name, term string) {
 		fv.storeLog = append(fv.storeLog, storeRec{name, "*"})
 	}
 	// name long update chains (SSA style) to keep terms small
-	if len(term) > 120 {
+	if len(term) > 120 && fv.pureMode == 0 {
 		c := fv.th.freshConst(sanitize(name), fv.heapSort[name])
 		fv.addFactRaw(mkEq(c, term))
 		term = c
@@ -223,7 +224,7 @@ func (fv *FuncVC) setHeap(st *State, name, term string) {
 
 // named abbreviates a long term by a fresh constant defined equal to it.
 func (fv *FuncVC) named(v Val, base string) Val {
-	if len(v.T) > 160 {
+	if len(v.T) > 160 && fv.pureMode == 0 {
 		c := fv.th.freshConst(base, v.S)
 		fv.addFactRaw(mkEq(c, v.T))
 		v.T = c
